@@ -348,23 +348,26 @@ func pickHeads(p1 []*Case, acc map[int]bool, max int) [][]string {
 	if !seen["/p"] {
 		heads = append(heads, []string{"/p"})
 	}
-	// one accepted head that names a network peer, if there is any (the
-	// shortest): sub-directives that make the setup talk to that peer need one
-	var peer []string
+	// accepted heads that name a network peer, if there are any: the shortest
+	// one with the peer as its last argument and the shortest one with the peer
+	// first (sub-directives that make the setup talk to that peer need one)
+	var peerLast, peerFirst []string
 	for _, k := range p1 {
-		if k.Block || !acc[k.ID] || len(k.Args) == 0 || !strings.Contains(strings.Join(k.Args, " "), "127.0.0.1:1") {
+		if k.Block || !acc[k.ID] || len(k.Args) == 0 {
 			continue
 		}
-		if seen[strings.Join(k.Args, "\x00")] {
-			peer = nil
-			break
+		if strings.Contains(k.Args[len(k.Args)-1], "127.0.0.1:1") && (peerLast == nil || len(k.Args) < len(peerLast)) {
+			peerLast = k.Args
 		}
-		if peer == nil || len(k.Args) < len(peer) {
-			peer = k.Args
+		if strings.Contains(k.Args[0], "127.0.0.1:1") && (peerFirst == nil || len(k.Args) < len(peerFirst)) {
+			peerFirst = k.Args
 		}
 	}
-	if peer != nil {
-		heads = append(heads, peer)
+	for _, h := range [][]string{peerLast, peerFirst} {
+		if h != nil && !seen[strings.Join(h, "\x00")] {
+			seen[strings.Join(h, "\x00")] = true
+			heads = append(heads, h)
+		}
 	}
 	return heads
 }
